@@ -41,7 +41,8 @@ fn ast_of(p: &Pattern<P>) -> Value {
 }
 
 fn gen(rng: &mut StdRng, depth: usize, pat: bool) -> String {
-    let slots = ["$1", "$2", "$x", "$yy", "$f3", "$\u{e9}", "$a\u{e9}b"];
+    // names that LOOK like numbers but are not the canonical spelling of one are ordinary names, distinct from the number
+    let slots = ["$1", "$2", "$x", "$yy", "$f3", "$\u{e9}", "$a\u{e9}b", "$007", "$+7", "$7", "$00", "$0", "$f03"];
     let sl = |rng: &mut StdRng| slots[rng.gen_range(0..slots.len())].to_string();
     let leaf = depth == 0 || rng.gen_bool(0.25);
     let base = if leaf {
